@@ -87,12 +87,12 @@ def run_one(case):
         vs.append(V("concurrent request creation completes", "threads/incomplete", f"{len(made)} created; run={info.get('result')}"))
     hb = [h for _, h, _ in made]
     ee = [e for _, _, e in made]
+    if any(not (isinstance(x, bytes) and len(x) == 4) for x in hb + ee):
+        vs.append(V("every header-less request receives a Hop-by-Hop and an End-to-End identifier", "threads/identifier-missing", f"{hb} {ee}"))
     if len(set(hb)) != len(hb):
-        vs.append(V("requests created concurrently carry pairwise distinct Hop-by-Hop identifiers", "threads/reuse/hop-by-hop",
-                    f"{[h.hex() for h in hb]}"))
+        vs.append(V("requests created concurrently carry pairwise distinct Hop-by-Hop identifiers", "threads/reuse/hop-by-hop", f"{hb}"))
     if len(set(ee)) != len(ee):
-        vs.append(V("requests created concurrently carry pairwise distinct End-to-End identifiers", "threads/reuse/end-to-end",
-                    f"{[e.hex() for e in ee]}"))
+        vs.append(V("requests created concurrently carry pairwise distinct End-to-End identifiers", "threads/reuse/end-to-end", f"{ee}"))
     return vs, info
 
 
